@@ -608,6 +608,7 @@ pub fn rotate_z(a: super::angle::Angle) -> Mat4x4<RealToReal<3>> {
 ///
 /// # Panics
 /// * If any parameter value is nonpositive.
+/// * If `aspect_ratio` is infinite (a viewport of zero height).
 /// * If `near_far` is an empty range.
 pub fn perspective(
     focal_ratio: f32,
@@ -617,7 +618,10 @@ pub fn perspective(
     let (near, far) = (near_far.start, near_far.end);
 
     assert!(focal_ratio > 0.0, "focal ratio must be positive");
-    assert!(aspect_ratio > 0.0, "aspect ratio must be positive");
+    assert!(
+        aspect_ratio > 0.0 && aspect_ratio < f32::INFINITY,
+        "aspect ratio must be positive and finite"
+    );
     assert!(near > 0.0, "near must be positive");
     assert!(!near_far.is_empty(), "far must be greater than near");
 
